@@ -27,33 +27,34 @@ const modPath = "github.com/textwire/textwire/v2"
 // Model is the type-checked, SSA-lowered program plus the facts extracted
 // from it. It is rebuilt from /repo's working tree on every run.
 type Model struct {
-	lenSums     map[*ssa.Function]*lenSum
-	lenSumBusy  map[*ssa.Function]bool
-	globalTabs  map[string]map[string]any
-	expectLikes map[*ssa.Function]*expectLike
-	Repo        string
-	Config      string // "default", "tags=verif", "GOARCH=386"
-	Fset        *token.FileSet
-	Pkgs        []*packages.Package          // module packages (non-test), sorted by path
-	ByPath      map[string]*packages.Package // import path -> package
-	Prog        *ssa.Program
-	SSA         map[string]*ssa.Package // import path -> ssa package
-	CG          *callgraph.Graph
-	AllFns      map[*ssa.Function]bool
-	ModFns      []*ssa.Function // every function (incl. anonymous) whose package is in the module
-	nEdges      int
-	fnDecl      map[*ssa.Function]*ast.FuncDecl
-	declFn      map[*ast.FuncDecl]*ssa.Function
-	reachMu     map[string]map[*ssa.Function][]*ssa.Function // cache: root set key -> fn -> one call chain
-	ctxs        map[*ssa.Function]*FnCtx
-	facts       *RepoFacts
-	inv         *nonnegInv
-	nilable     *nilableInfo
-	nilRet      map[*ssa.Function]string
-	effects     *effectAnalysis
-	idxSum      map[*ssa.Function]int
-	invDone     bool
-	fwTrans     map[*ssa.Function]map[fieldID]bool
+	evalWrappers map[*ssa.Function]int
+	lenSums      map[*ssa.Function]*lenSum
+	lenSumBusy   map[*ssa.Function]bool
+	globalTabs   map[string]map[string]any
+	expectLikes  map[*ssa.Function]*expectLike
+	Repo         string
+	Config       string // "default", "tags=verif", "GOARCH=386"
+	Fset         *token.FileSet
+	Pkgs         []*packages.Package          // module packages (non-test), sorted by path
+	ByPath       map[string]*packages.Package // import path -> package
+	Prog         *ssa.Program
+	SSA          map[string]*ssa.Package // import path -> ssa package
+	CG           *callgraph.Graph
+	AllFns       map[*ssa.Function]bool
+	ModFns       []*ssa.Function // every function (incl. anonymous) whose package is in the module
+	nEdges       int
+	fnDecl       map[*ssa.Function]*ast.FuncDecl
+	declFn       map[*ast.FuncDecl]*ssa.Function
+	reachMu      map[string]map[*ssa.Function][]*ssa.Function // cache: root set key -> fn -> one call chain
+	ctxs         map[*ssa.Function]*FnCtx
+	facts        *RepoFacts
+	inv          *nonnegInv
+	nilable      *nilableInfo
+	nilRet       map[*ssa.Function]string
+	effects      *effectAnalysis
+	idxSum       map[*ssa.Function]int
+	invDone      bool
+	fwTrans      map[*ssa.Function]map[fieldID]bool
 }
 
 // LoadModel type-checks every package of the module under repo and lowers it.
@@ -113,6 +114,7 @@ func LoadModel(repo string, buildFlags []string, env []string, config string) (*
 		m.nEdges += len(n.Out)
 	}
 	m.resolveNames()
+	curModel = m
 	m.fnDecl = map[*ssa.Function]*ast.FuncDecl{}
 	m.declFn = map[*ast.FuncDecl]*ssa.Function{}
 	for _, fn := range m.ModFns {
@@ -932,3 +934,7 @@ func readsGlobal(fn *ssa.Function, name string) bool {
 	}
 	return false
 }
+
+// curModel: the model being analysed (one source tree per process; set by LoadModel). Used by fact helpers that have
+// no model parameter.
+var curModel *Model
